@@ -910,7 +910,10 @@ fn oracle(ctx: &mut Ctx, idx: usize, case: &Case, out: &Out, rng: &mut Rng) {
                 if !(acc.is_finite() && acc >= 0.0) || (needs_access && acc <= 0.0) || (!needs_access && acc != 0.0) {
                     ctx.fail(idx, &format!("{}/access-share", site), format!("access share {}", acc));
                 }
-                if !(total.is_finite() && total > 0.0) {
+                if total == 0.0 && t > 0.0 && t <= acc * f64::EPSILON {
+                    // explained by rounding alone: the charged total is below one ulp of the access share
+                    ctx.fail(idx, "edge_traversal/floor-absorbed", format!("{}: access {} + (total {} - access) = {}", site, acc, t, total));
+                } else if !(total.is_finite() && total > 0.0) {
                     ctx.fail(idx, "edge_traversal/total-not-positive", format!("{}: access {} + (total {} - access) = {}", site, acc, t, total));
                 } else if (total - t).abs() > REL * (acc.abs() + t.abs()) {
                     ctx.fail(idx, "edge_traversal/total-differs", format!("{}: access {} + (total {} - access) = {}", site, acc, t, total));
